@@ -54,14 +54,24 @@ theorem finishOp_effect (s : St) (opId : Nat) :
         = some ⟨s.nextId, vs, ds, r, 0, .pending .start false⟩) ∧
     (∀ ds r, (finishOp s opId (.patchSeq [] ds r)).port.seq = none) ∧
     (∀ b, (finishOp s opId (.setExpr b)).port.seq = none ∧ (finishOp s opId (.setExpr b)).port.hasExpr = b) ∧
-    ((finishOp s opId (.setEnabled false)).port.seq = none ∧ (finishOp s opId (.setEnabled false)).port.enabled = false) := by
+    ((finishOp s opId (.setEnabled false)).port.seq = none ∧
+      ((s.disLat = 0 ∧ s.disRaise = true) ∨ (finishOp s opId (.setEnabled false)).port.enabled = false)) := by
   refine ⟨?_, ?_, ?_, ?_⟩
   · intro vs ds r h
     have : vs.isEmpty = false := by cases vs with | nil => exact absurd rfl h | cons _ _ => rfl
     simp [finishOp, install, this, St.setSeq, St.emit, St.push]
   · intro ds r; simp [finishOp, install, St.setSeq, St.emit]
   · intro b; simp [finishOp, St.setSeq, St.emit]
-  · simp [finishOp, St.setSeq, St.emit]
+  · by_cases h1 : s.disLat = 0 <;> by_cases h2 : s.disRaise = true <;>
+      simp [finishOp, setEnabledThenHook, hookDone, St.setSeq, St.emit, St.addTimer, h1, h2]
+
+/-- The driver's `handle_disable()` comes after the stop: whatever it does (await, raise), the sequence is gone and
+stays gone; if it raises, the port is enabled again and the call fails. -/
+theorem hookDone_effect (s : St) (opId : Nat) :
+    (hookDone s opId false).port.seq = s.port.seq ∧
+    (s.disRaise = true → (hookDone s opId false).port.enabled = true) ∧
+    (s.disRaise = false → (hookDone s opId false).port.enabled = s.port.enabled) := by
+  by_cases h2 : s.disRaise = true <;> simp [hookDone, St.emit, h2]
 
 /-! ### witnesses (the same cases are in the corpus of the harness and are replayed on the real code) -/
 
